@@ -9,7 +9,7 @@
    A pair is a (server name, key id); maps are association lists; where a theorem needs the
    keys of an answer to be unique (Go maps always are) it says NoDup. *)
 From Coq Require Import Sorted.
-From Verif Require Import Lib.Bytes Json.Ast Keys.Model Keys.Spec Keys.MapFacts Keys.Proofs Keys.ServerKeys Keys.ServerKeysProofs Gen.GenC12.
+From Verif Require Import Lib.Bytes Json.Ast Keys.Model Keys.Spec Keys.MapFacts Keys.Proofs Keys.ServerKeys Keys.ServerKeysProofs Keys.KeyDoc Keys.KeyDocProofs Gen.GenC12.
 Open Scope Z_scope.
 
 (* the constants and comparison operators of the model are those of the source (regenerated
@@ -17,6 +17,8 @@ Open Scope Z_scope.
 Theorem C12_constants_match_source :
   gen_c12_strict_cap_ns = seven_days_ns /\
   gen_c12_strict_cap_ns = seven_days_ms * 1000000 /\
+  gen_c12_strict_unsigned = strict_unsigned /\
+  gen_c12_signatures_per_entry = signatures_per_entry /\
   gen_c12_publickeynotexpired = public_key_not_expired /\
   gen_c12_publickeynotvalid = public_key_not_valid /\
   gen_c12_supported_prefix = supported_prefix /\
@@ -34,18 +36,23 @@ Proof. repeat split; reflexivity. Qed.
 
 (* ---------- the validity rule ---------- *)
 
-(* WasValidAt with either rule, for all uint64 values, in millisecond arithmetic on the int64
-   reading Timestamp.Time makes of them *)
-Theorem was_valid_at_spec_all : forall now r atts rl,
+(* WasValidAt with either rule, for all uint64 values.  The source computes the strict rule either
+   through Timestamp.Time(), i.e. on the int64 reading of the values (strict_unsigned = false,
+   valid_at_spec), or - once finding F62 is repaired - on the unsigned millisecond values
+   (strict_unsigned = true, valid_at_unsigned); C12_constants_match_source says which.  now is the
+   clock in nanoseconds since the epoch, within int64. *)
+Theorem was_valid_at_spec_all : forall now r atts rl, 0 <= now < 2 ^ 63 ->
   was_valid_at now r atts rl =
-  valid_at_spec (rule_strict rl) now (pk_expired r) (pk_valid_until r) atts.
-Proof. exact was_valid_at_eq_spec. Qed.
+  (if strict_unsigned then valid_at_unsigned else valid_at_spec)
+    (rule_strict rl) now (pk_expired r) (pk_valid_until r) atts.
+Proof. intros now r atts rl H. rewrite (was_valid_at_eq_lib now r atts rl H). unfold lib_rule. destruct strict_unsigned; reflexivity. Qed.
 
-(* the property text, for timestamps below 2^63: an expired key is valid strictly before
-   expired_ts; otherwise always under the lenient rule, and under the strict rule iff a validity
-   period is known and the timestamp is at or before min(valid_until_ts, now + 7 days) *)
+(* the property text, for timestamps below 2^63 (either computation): an expired key is valid
+   strictly before expired_ts; otherwise always under the lenient rule, and under the strict rule
+   iff a validity period is known and the timestamp is at or before
+   min(valid_until_ts, now + 7 days) *)
 Theorem was_valid_at_spec : forall now r atts rl,
-  0 <= atts < 2 ^ 63 -> 0 <= pk_valid_until r < 2 ^ 63 ->
+  0 <= now < 2 ^ 63 -> 0 <= atts < 2 ^ 63 -> 0 <= pk_valid_until r < 2 ^ 63 ->
   (was_valid_at now r atts rl = true <->
    (pk_expired r <> 0 /\ atts < pk_expired r) \/
    (pk_expired r = 0 /\
@@ -53,11 +60,24 @@ Theorem was_valid_at_spec : forall now r atts rl,
      (pk_valid_until r <> 0 /\ atts <= Z.min (pk_valid_until r) (now / 1000000 + seven_days_ms))))).
 Proof. exact was_valid_at_text. Qed.
 
-(* the wrap: a timestamp of 2^63 or more is read as an instant before the epoch and passes the
-   strict rule against any known validity period *)
+(* with the unsigned computation the text holds for every uint64 value *)
+Theorem was_valid_at_follows_the_text_when_unsigned : forall now r atts rl,
+  strict_unsigned = true -> 0 <= now < 2 ^ 63 ->
+  was_valid_at now r atts rl = valid_at_unsigned (rule_strict rl) now (pk_expired r) (pk_valid_until r) atts.
+Proof. exact was_valid_at_eq_unsigned. Qed.
+
+(* F62: through int64 a timestamp of 2^63 or more is read as an instant before the epoch and passes
+   the strict rule against any known validity period ... *)
 Theorem strict_check_wraps_above_int64 : forall now atts vu,
   2 ^ 63 <= atts < 2 ^ 64 -> 0 < vu < 2 ^ 63 -> 0 <= now -> strict_check now atts vu = true.
 Proof. exact strict_check_wraps. Qed.
+
+(* ... which the text forbids: the claim that the int64 computation follows the text for all
+   uint64 timestamps is refuted (292 million years after valid_until_ts, accepted) *)
+Theorem strict_rule_through_int64_refuted :
+  exists now atts vu, strict_check now atts vu = true /\ strict_check_unsigned now atts vu = false /\
+                      valid_at_unsigned true now 0 vu atts = false.
+Proof. exists (1700000000000 * 1000000), (2 ^ 63), 1700003600000. exact strict_rule_wrap_witness. Qed.
 
 Section C12.
   Context {M : Type} (kids_of : bytes -> M -> option (list bytes))
@@ -234,18 +254,29 @@ Section C12Keys.
 
   (* an answer of the perspective fetcher exists only if EVERY response of the notary carries a
      signature of the notary, under a key id we hold a notary key for, that verifies with that
-     key, and passes CheckKeys for the server it names; and every key in the answer comes from
-     one of those responses *)
+     key; and every key in the answer comes from one of those responses that moreover is about a
+     server of the request map (F64) and passes CheckKeys for the server it names *)
   Theorem perspective_requires_notary_signature :
     forall (lookup_keys : bytes -> kmap Z -> option (list (server_keys M))) pname pkeys asked res,
     perspective_fetch M kids_of vj lookup_keys pname pkeys asked = Some res ->
     exists docs, lookup_keys pname asked = Some docs /\
       (forall d, In d docs ->
-         (exists kids kid key, kids_of pname (sk_raw d) = Some kids /\ In kid kids /\
-                               assoc_first kid pkeys = Some key /\ vj pname kid key (sk_raw d) = true)
-         /\ ck_all (check_keys M vj (sk_server d) fetcher_check_now d) = true) /\
-      (forall k r, In (k, r) res -> exists d, In d docs /\ entry_from M d k r).
+         exists kids kid key, kids_of pname (sk_raw d) = Some kids /\ In kid kids /\
+                              assoc_first kid pkeys = Some key /\ vj pname kid key (sk_raw d) = true) /\
+      (forall k r, In (k, r) res ->
+         exists d, In d docs /\
+           ((exists kids kid key, kids_of pname (sk_raw d) = Some kids /\ In kid kids /\
+                                  assoc_first kid pkeys = Some key /\ vj pname kid key (sk_raw d) = true) /\
+            server_requested asked (sk_server d) = true /\
+            ck_all (check_keys M vj (sk_server d) fetcher_check_now d) = true) /\
+           entry_from M d k r).
   Proof. exact (perspective_fetch_spec M kids_of vj). Qed.
+
+  Theorem perspective_answers_only_for_requested_servers :
+    forall (lookup_keys : bytes -> kmap Z -> option (list (server_keys M))) pname pkeys asked res k r,
+    perspective_fetch M kids_of vj lookup_keys pname pkeys asked = Some res -> In (k, r) res ->
+    exists kid t, In ((fst k, kid), t) asked.
+  Proof. exact (perspective_fetch_requested M kids_of vj). Qed.
 
   (* every key the direct fetcher returns is the configured local key for a local server that was
      asked for, or comes from a response for that key's server (fetched from the server itself or,
@@ -265,6 +296,66 @@ Section C12Keys.
                   /\ entry_from M d k r).
   Proof. exact (direct_fetch_spec M vj). Qed.
 End C12Keys.
+
+(* ---------- key documents are read by their exact member names (F64) ---------- *)
+
+(* what a key document decodes to depends only on its members spelled exactly server_name,
+   verify_keys, valid_until_ts, old_verify_keys ... *)
+Theorem key_document_depends_only_on_exact_members : forall top top',
+  (forall n, In n doc_members -> assoc_last n top = assoc_last n top') ->
+  doc_of_members top = doc_of_members top'.
+Proof. exact doc_of_members_ext. Qed.
+
+(* ... so a member under any other name (a case variant, a name that merely folds to one of the
+   four) can be added anywhere without changing it *)
+Theorem key_document_ignores_other_members : forall top1 k v top2,
+  ~ In k doc_members -> doc_of_members (top1 ++ (k, v) :: top2) = doc_of_members (top1 ++ top2).
+Proof. exact other_member_ignored. Qed.
+
+Section C12Raw.
+  Context (kids_of : bytes -> bytes -> option (list bytes)) (vj : bytes -> bytes -> bytes -> bytes -> bool)
+          (get_raw : bytes -> option bytes) (lookup_raw : bytes -> kmap Z -> option (list bytes)).
+
+  (* the fetched key of a server, through a notary: it is listed by a raw document of the notary's
+     answer that names that server by the member spelled exactly server_name, that the notary signed
+     under a key id we hold its key for, that is about a requested server, and that the named
+     server signed with each of its listed ed25519 keys (CheckKeys) *)
+  Theorem perspective_fetched_key_names_its_server_exactly : forall pname pkeys asked res k r,
+    perspective_fetch bytes kids_of vj (lookup_decoded lookup_raw) pname pkeys asked = Some res ->
+    In (k, r) res ->
+    exists raws raw d,
+      lookup_raw pname asked = Some raws /\ In raw raws /\ server_keys_of raw = Some d /\
+      names_server_exactly raw (fst k) /\
+      (exists kid t, In ((fst k, kid), t) asked) /\
+      (exists kids kid key, kids_of pname raw = Some kids /\ In kid kids /\
+                            assoc_first kid pkeys = Some key /\ vj pname kid key raw = true) /\
+      ck_all (check_keys bytes vj (fst k) fetcher_check_now d) = true /\
+      entry_from bytes d k r.
+  Proof. exact (perspective_fetched_key kids_of vj lookup_raw). Qed.
+
+  (* ... and fetched directly: the local key, or listed by a raw document obtained from that very
+     server (or from it as its own notary) that names it exactly and passes CheckKeys for it *)
+  Theorem direct_fetched_key_names_its_server_exactly : forall is_local local_key now_ts asked k r,
+    In (k, r) (direct_fetch bytes vj (get_decoded get_raw) (lookup_decoded lookup_raw) is_local local_key now_ts asked) ->
+    (is_local (fst k) = true /\ mhas k asked = true /\
+     r = {| pk_key := local_key; pk_expired := 0; pk_valid_until := local_key_valid_until |})
+    \/ (exists raw d,
+          is_local (fst k) = false /\
+          (get_raw (fst k) = Some raw \/
+           exists raws, lookup_raw (fst k) [((fst k, []), now_ts)] = Some raws /\ In raw raws) /\
+          server_keys_of raw = Some d /\ names_server_exactly raw (fst k) /\
+          ck_all (check_keys bytes vj (fst k) fetcher_check_now d) = true /\ entry_from bytes d k r).
+  Proof. exact (direct_fetched_key vj get_raw lookup_raw). Qed.
+End C12Raw.
+
+(* the planted-key document of finding F64 decodes to a document of the server its exact member
+   names; the long-s member plays no part *)
+Example long_s_member_is_not_server_name :
+  option_map kd_server
+    (parse_key_doc (bs "{""server_name"":""evil.example"",""valid_until_ts"":5,""verify_keys"":{}," ++
+                    [34; 197; 191]%N ++ bs "erver_name"":""victim.example""}"))
+  = Some (bs "evil.example").
+Proof. vm_compute. reflexivity. Qed.
 
 (* ---------- non-vacuity: a concrete ring ---------- *)
 Definition ex_kid : bytes := bs "ed25519:a".
@@ -330,7 +421,9 @@ Proof. vm_compute. repeat split; reflexivity. Qed.
 Print Assumptions C12_constants_match_source.
 Print Assumptions was_valid_at_spec_all.
 Print Assumptions was_valid_at_spec.
+Print Assumptions was_valid_at_follows_the_text_when_unsigned.
 Print Assumptions strict_check_wraps_above_int64.
+Print Assumptions strict_rule_through_int64_refuted.
 Print Assumptions verify_jsons_shape.
 Print Assumptions verify_jsons_sound.
 Print Assumptions database_asked_only_for_needed_pairs.
@@ -351,4 +444,9 @@ Print Assumptions fetchers_check_validity_against_the_epoch.
 Print Assumptions server_keys_map_spec.
 Print Assumptions server_keys_public_key_spec.
 Print Assumptions perspective_requires_notary_signature.
+Print Assumptions perspective_answers_only_for_requested_servers.
+Print Assumptions key_document_depends_only_on_exact_members.
+Print Assumptions key_document_ignores_other_members.
+Print Assumptions perspective_fetched_key_names_its_server_exactly.
+Print Assumptions direct_fetched_key_names_its_server_exactly.
 Print Assumptions direct_fetcher_accepts_only_checked_responses.
